@@ -200,6 +200,24 @@ def kernel_correspondence(chk, want):
                             break
             tie_a_ok = None
             bad_a = []
+            if want == 'score':
+                # tie (a) of C02: the observed (matrix, traceback) pair is a legal table of the scheme (every cell one of the
+                # candidates from its observed neighbours) and the Lean re-scoring of the Lean traceback over it equals the
+                # returned similarity bit for bit (theorem C02_of_table_global/local)
+                idxs = [i for i in range(len(stream)) if obss[i] is not None and reals[i][0] != 'E']
+                lines = []
+                for i in idxs:
+                    o, c = obss[i], stream[i][0]
+                    kl = '%d %d' % (o['k'], o['l']) if mode == 'local' else ''
+                    lines.append('cellok|' + al.encode(cfg, c) + '|' + ' '.join(f2b(v) for row in o['matrix'] for v in row) + '|' +
+                                 ' '.join(str(v) for row in o['traceback'] for v in row) + '|' + kl)
+                o5 = drv.ask_many(lines)
+                for i, o in zip(idxs, o5):
+                    t = o.split()
+                    simb = f2b(reals[i][-1])
+                    if not (len(t) == 4 and t[0] == 'K' and t[1] == '1' and t[2] == simb and t[3] == simb):
+                        bad_a.append(i)
+                tie_a_ok = not bad_a and len(idxs) > 0
             if want == 'rows':
                 idxs = [i for i in range(len(stream)) if obss[i] is not None and reals[i][0] != 'E']
                 o4 = drv.ask_many([tbobs_line(kname, stream[i][0], obss[i]) for i in idxs])
@@ -234,6 +252,9 @@ def kernel_correspondence(chk, want):
                 chk.notes.append('%s identified as %s' % (kname, detail))
             if want == 'rows':
                 detail += ' tie(a) observed-table traceback: %s; tie(b) end-to-end rows: %s' % (
+                    'holds' if tie_a_ok else 'BROKEN(%d)' % len(bad_a), 'holds' if ok_b else 'BROKEN(%d)' % len(bad_b))
+            elif want == 'score':
+                detail += ' tie(a) observed table is a legal table of the scheme + Lean re-scoring == similarity: %s; tie(b) end-to-end bit-exact: %s' % (
                     'holds' if tie_a_ok else 'BROKEN(%d)' % len(bad_a), 'holds' if ok_b else 'BROKEN(%d)' % len(bad_b))
             else:
                 detail += ' end-to-end differential (bit-exact score): %s' % ('holds' if ok_b else 'BROKEN(%d)' % len(bad_b))
